@@ -806,6 +806,17 @@ def on_seq(self, li, si, st, meta, issue, r):
     A = [e for e in self.model.live(a_t) if ok_side(e)]
     B = [e for e in self.model.live(b_t) if ok_side(e)]
     want = Q.match_sequences(A, B, meta["link"], rel)
+    # Events that carry no value of the link field: the property speaks of pairs that "carry the same value of k" and
+    # does not say whether two events without a value are linked. The engine puts them into one group; both readings
+    # are accepted - such pairs are neither required nor forbidden (their time relation and WHERE are still checked),
+    # and they may or may not use up LIMIT.
+    link = meta["link"]
+    A0 = [e for e in A if e.stored.get(link) is None]
+    B0 = [e for e in B if e.stored.get(link) is None]
+    want_null = set()
+    for a in A0:
+        if any((rel == "FOLLOWED BY" and b.ts >= a.ts) or (rel == "PRECEDED BY" and b.ts < a.ts) for b in B0):
+            want_null.add(a.k)
     if len(rows) % 2 != 0:
         self.v("seq-shape", li, si, f"{what}: {len(rows)} rows do not form pairs")
         return
@@ -834,16 +845,19 @@ def on_seq(self, li, si, st, meta, issue, r):
         if problems:
             self.v("seq-bad-pair", li, si, f"{what}: pair (k={ma.k}, k={mb.k}): " + "; ".join(problems))
     lim = meta.get("limit")
+    got_keyed = [k for k in got_a if k not in want_null]
     if lim is not None:
-        if len(got_a) != min(lim, len(want)):
-            self.v("seq-limit", li, si, f"{what}: {len(got_a)} sequences, expected min({lim}, {len(want)})")
+        lo, hi = min(lim, len(want)), min(lim, len(want) + len(want_null))
+        if not (lo <= len(got_a) <= hi) or len(got_keyed) > len(want):
+            self.v("seq-limit", li, si, f"{what}: {len(got_a)} sequences, expected min({lim}, {len(want)})" +
+                   (f" (up to {hi} if events without a link value are linked to each other)" if want_null else ""))
     else:
-        for k in sorted(want - set(got_a)):
+        for k in sorted(want - set(got_keyed)):
             self.v("seq-missing", li, si, f"{what}: a-event k={k} has a qualifying partner but is not matched")
-        for k in sorted(set(got_a) - want):
+        for k in sorted(set(got_keyed) - want):
             self.v("seq-extra", li, si, f"{what}: a-event k={k} is matched although no qualifying partner exists")
         self._cur_atoms = []
-        _invariance(self, li, si, what, sorted(set(got_a)), "matched a-events")
+        _invariance(self, li, si, what, sorted(set(got_keyed)), "matched a-events")
     self.stats["reads:seq"] += 1
 
 
